@@ -777,6 +777,8 @@ static void srv_add(const char *ip)
 }
 
 /* Register the addresses of a servers csv ("a,b:53,[c]:53") */
+static int sim_writefile(const char *patharg, const char *hex); /* defined with the op dispatcher */
+
 static void srv_add_csv(const char *csv)
 {
   char  buf[1024];
@@ -1488,6 +1490,7 @@ static ares_ssize_t v_sendto(ares_socket_t fd, const void *buffer,
     errno = EBADF;
     return -1;
   }
+  qstate_dump();
   a[0] = 0;
   if (address != NULL) {
     strcpy(a, " to=");
@@ -2204,7 +2207,9 @@ static int fld_u(const char *s, unsigned long max, unsigned long *out)
   return 1;
 }
 
-/* one RR: TYPE:rdata...[:ttl][@owner].  Returns 0 on bad spec. */
+static int parse_class(const char *s, long *out);
+
+/* one RR: TYPE:rdata...[:ttl][@owner][@@class].  Returns 0 on bad spec. */
 static int add_rr(ares_dns_record_t *rec, ares_dns_section_t sect,
                   const char *spec, const char *defowner, long ttlall)
 {
@@ -2215,6 +2220,7 @@ static int add_rr(ares_dns_record_t *rec, ares_dns_section_t sect,
   ares_dns_rec_type_t type;
   ares_dns_rr_t      *rr  = NULL;
   unsigned long       ttl = 300;
+  ares_dns_class_t    rrclass = ARES_CLASS_IN;
   int                 need; /* number of rdata fields */
   char                v6[128];
   unsigned long       u;
@@ -2224,6 +2230,19 @@ static int add_rr(ares_dns_record_t *rec, ares_dns_section_t sect,
     return 0;
   }
   strcpy(buf, spec);
+  {
+    /* optional "@@<class>" suffix (IN, CH, HS, NONE, ANY or a number); default IN */
+    char *cls = strstr(buf, "@@");
+    if (cls != NULL) {
+      long cv;
+      *cls  = 0;
+      cls  += 2;
+      if (!parse_class(cls, &cv)) {
+        return 0;
+      }
+      rrclass = (ares_dns_class_t)cv;
+    }
+  }
   owner = strrchr(buf, '@');
   if (owner != NULL) {
     *owner++ = 0;
@@ -2297,7 +2316,7 @@ static int add_rr(ares_dns_record_t *rec, ares_dns_section_t sect,
   if (owner == NULL) {
     owner = (char *)defowner;
   }
-  if (ares_dns_record_rr_add(&rr, rec, sect, owner, type, ARES_CLASS_IN,
+  if (ares_dns_record_rr_add(&rr, rec, sect, owner, type, rrclass,
                              (unsigned int)ttl) != ARES_SUCCESS) {
     return 0;
   }
@@ -3542,6 +3561,15 @@ static int exec_netop(int argc, char **argv, const char *optext)
     ev("NOW %lld.%03d", (long long)(G.now_us / 1000), (int)(G.now_us % 1000));
     return 1;
   }
+  if (strcmp(op, "writefile") == 0) {
+    /* writefile <path> <hex|->   (re)write a file, e.g. the resolv.conf a later reinit reads */
+    if (argc != 3 || !sim_writefile(argv[1], argv[2])) {
+      ev("BADOP args: %s", optext);
+      return 1;
+    }
+    ev("WRITEFILE %s", argv[1]);
+    return 1;
+  }
   if (strcmp(op, "note") == 0) {
     return 1; /* the OP line already carries the text */
   }
@@ -3672,6 +3700,102 @@ static void op_opts(void)
   ev_sb(&sb);
   sb_free(&sb);
   ares_destroy_options(&o);
+}
+
+/* ------------------------------------------------------------------------- */
+/* Files written by a case (config key writefile=<path>:<hex>, op writefile)    */
+/* ------------------------------------------------------------------------- */
+/* A path starting with "@/" lives in the directory named by the environment
+ * variable VERIF_SIM_DIR (default: the current directory) and gets the process
+ * id as a prefix, so that concurrent runs do not collide.  Files written by a
+ * case are removed at its end.  "nameserver <addr>" lines of the content are
+ * added to the table of known server addresses (TX srv=, QSTATE srv=). */
+static char g_simfiles[16][600];
+static int  g_nsimfiles = 0;
+
+static const char *sim_path(const char *arg)
+{
+  static char bufs[4][600];
+  static int  next = 0;
+  char       *out;
+  const char *dir;
+  if (arg == NULL || strncmp(arg, "@/", 2) != 0) {
+    return arg;
+  }
+  out  = bufs[next];
+  next = (next + 1) % 4;
+  dir  = getenv("VERIF_SIM_DIR");
+  if (dir == NULL || *dir == 0) {
+    dir = ".";
+  }
+  snprintf(out, sizeof(bufs[0]), "%s/%ld-%s", dir, (long)getpid(), arg + 2);
+  return out;
+}
+
+static int sim_writefile(const char *patharg, const char *hex)
+{
+  size_t         len = 0;
+  unsigned char *b   = (hex != NULL && *hex != 0 && strcmp(hex, "-") != 0) ? parse_hex(hex, &len) : NULL;
+  const char    *path = sim_path(patharg);
+  FILE          *f;
+  int            i;
+  char          *text;
+  char          *line;
+  char          *save = NULL;
+  if (hex != NULL && *hex != 0 && strcmp(hex, "-") != 0 && b == NULL) {
+    return 0;
+  }
+  f = fopen(path, "wb");
+  if (f == NULL) {
+    free(b);
+    return 0;
+  }
+  if (len > 0) {
+    fwrite(b, 1, len, f);
+  }
+  fclose(f);
+  for (i = 0; i < g_nsimfiles; i++) {
+    if (strcmp(g_simfiles[i], path) == 0) {
+      break;
+    }
+  }
+  if (i == g_nsimfiles && g_nsimfiles < 16 && strlen(path) < sizeof(g_simfiles[0])) {
+    strcpy(g_simfiles[g_nsimfiles++], path);
+  }
+  text = xmalloc(len + 1);
+  if (len > 0) {
+    memcpy(text, b, len);
+  }
+  text[len] = 0;
+  for (line = strtok_r(text, "\n", &save); line != NULL; line = strtok_r(NULL, "\n", &save)) {
+    while (*line == ' ' || *line == '\t') {
+      line++;
+    }
+    if (strncmp(line, "nameserver", 10) == 0 && (line[10] == ' ' || line[10] == '\t')) {
+      char  addr[128];
+      char *a = line + 10;
+      char *e;
+      while (*a == ' ' || *a == '\t') {
+        a++;
+      }
+      snprintf(addr, sizeof(addr), "%s", a);
+      e = addr + strcspn(addr, " \t\r#;");
+      *e = 0;
+      srv_add_csv(addr);
+    }
+  }
+  free(text);
+  free(b);
+  return 1;
+}
+
+static void sim_removefiles(void)
+{
+  int i;
+  for (i = 0; i < g_nsimfiles; i++) {
+    unlink(g_simfiles[i]);
+  }
+  g_nsimfiles = 0;
 }
 
 /* ------------------------------------------------------------------------- */
@@ -4066,6 +4190,19 @@ static void parse_config(char *cfgtext, cfg_t *c)
     NUMKEY("failallocsticky", sticky, 0, 1)
     NUMKEY("allocstats", allocstats, 0, 1)
     NUMKEY("idseq", idseq, 0, 65535)
+    if (strcmp(k, "writefile") == 0) {
+      /* writefile=<path>:<hex>  file created before the channel is initialised */
+      char *colon = strrchr(val, ':');
+      if (colon == NULL) {
+        ev("BADCFG %s", k);
+      } else {
+        *colon = 0;
+        if (!sim_writefile(val, colon + 1)) {
+          ev("BADCFG %s", k);
+        }
+      }
+      continue;
+    }
     STRKEY("csv", csv)
     STRKEY("domains", domains)
     STRKEY("lookups", lookups)
@@ -4422,6 +4559,8 @@ void sim_run_case(long idx, const char *line)
 
   cfg_defaults(&cfg);
   parse_config(copy, &cfg);
+  cfg.resolvconf = sim_path(cfg.resolvconf);
+  cfg.hosts      = sim_path(cfg.hosts);
   G.rng = (ares_uint64_t)cfg.seed * 0x9E3779B97F4A7C15ULL;
   if (G.rng == 0) {
     G.rng = 0x9E3779B97F4A7C15ULL;
@@ -4510,6 +4649,7 @@ void sim_run_case(long idx, const char *line)
   unsetenv("LOCALDOMAIN");
   unsetenv("RES_OPTIONS");
   unsetenv("HOSTALIASES");
+  sim_removefiles();
   free(G.qdump_last);
   free(copy);
   memset(&G, 0, sizeof(G));
